@@ -148,8 +148,8 @@ def run_case(case):
         delivered = []
         for s in res.sent.get(0, []):
             try:
-                p = refframe.parse_one(framing, s)
-                delivered.append(p['pdu'])
+                for p in refframe.parse_many(framing, s):
+                    delivered.append(p['pdu'])
             except refframe.FrameError:
                 pass
     if not discs:
